@@ -24,6 +24,14 @@ func Pattern(kind, n int) [][]byte {
 			out[i] = []byte(fmt.Sprintf("record %d\n", i))
 		case 1:
 			out[i] = []byte("same\n")
+		case 3:
+			// record lengths around hash block sizes and common stack buffer sizes
+			lens := []int{0, 1, 31, 32, 55, 56, 63, 64, 65, 119, 127, 128, 255, 256, 257, 511, 512, 1023, 1024, 4096, 65536}
+			b := make([]byte, lens[i%len(lens)])
+			for j := range b {
+				b[j] = byte('a' + (i+j)%26)
+			}
+			out[i] = b
 		default:
 			out[i] = []byte(fmt.Sprintf("p%d\n", i%3))
 		}
